@@ -49,7 +49,7 @@ where
                     }
                     extract_type_ann_from_pat(param)
                 }),
-                Expr::Fn(fn_expr) => fn_expr.function.params.first().and_then(|param| {
+                Expr::Fn(fn_expr) => setup_params(&fn_expr.function).next().and_then(|param| {
                     if let Pat::Assign(AssignPat { right, .. }) = &param.pat {
                         defaults = Some(&**right);
                     }
@@ -1252,10 +1252,8 @@ where
             match &**expr {
                 // (a defaulted parameter, `ctx: SetupContext<E> = fallback`, is annotated too)
                 Expr::Arrow(arrow) => arrow.params.get(1).and_then(extract_type_ann_from_pat),
-                Expr::Fn(fn_expr) => fn_expr
-                    .function
-                    .params
-                    .get(1)
+                Expr::Fn(fn_expr) => setup_params(&fn_expr.function)
+                    .nth(1)
                     .and_then(|param| extract_type_ann_from_pat(&param.pat)),
                 _ => return None,
             }?
@@ -1291,7 +1289,11 @@ where
                                     params,
                                     ..
                                 }) => params
-                                    .first()
+                                    .iter()
+                                    // (`(this: void, e: 'foo') => void`)
+                                    .find(|param| {
+                                        !matches!(param, TsFnParam::Ident(ident) if ident.sym == "this")
+                                    })
                                     .and_then(|param| match param {
                                         TsFnParam::Ident(ident) => ident.type_ann.as_deref(),
                                         TsFnParam::Array(array) => array.type_ann.as_deref(),
@@ -1357,6 +1359,15 @@ fn try_unwrap_lit_prop_name(prop_name: &PropName) -> Option<Cow<PropName>> {
             _ => None,
         },
     }
+}
+
+/// The parameters of a setup function, without TypeScript's `this` pseudo-parameter
+/// (`function (this: Foo, props: Props) {}`).
+fn setup_params(function: &Function) -> impl Iterator<Item = &Param> {
+    function
+        .params
+        .iter()
+        .filter(|param| !matches!(&param.pat, Pat::Ident(ident) if ident.sym == "this"))
 }
 
 fn extract_type_ann_from_pat(pat: &Pat) -> Option<&TsTypeAnn> {
